@@ -42,6 +42,18 @@ func init() {
 		"(*regexp.Regexp).FindStringSubmatch": inRegexFindSubmatch,
 		"strconv.ParseUint":                   inParseUint,
 		"(*sync.Pool).Get":                    inPoolGet,
+		"(*strings.Builder).WriteString":      inBuilderWrite,
+		"(*strings.Builder).Write":            inBuilderWrite,
+		"(*strings.Builder).WriteByte":        inBuilderWriteByte,
+		"(*strings.Builder).WriteRune":        inBuilderWriteRune,
+		"(*strings.Builder).String": func(e *Exec, fn *ssa.Function, a []Value) Value {
+			return e.mkString(append([]*Term{}, e.builders[a[0].(*Pointer).Slot]...))
+		},
+		"(*strings.Builder).Len": func(e *Exec, fn *ssa.Function, a []Value) Value {
+			return e.ctx.Int(int64(len(e.builders[a[0].(*Pointer).Slot])))
+		},
+		"(*strings.Builder).Grow":  func(e *Exec, fn *ssa.Function, a []Value) Value { return nil },
+		"(*strings.Builder).Reset": func(e *Exec, fn *ssa.Function, a []Value) Value { delete(e.builders, a[0].(*Pointer).Slot); return nil },
 		// concrete-argument summaries (the HTML helper functions): evaluated by the
 		// real library function; symbolic arguments are unsupported
 		"net/url.QueryEscape": func(e *Exec, fn *ssa.Function, a []Value) Value {
@@ -688,9 +700,17 @@ func (e *Exec) sprintfSym(format string, args []Value) (Value, bool) {
 		default:
 			return nil, false
 		}
-		// width counts runes; the model is exact for ASCII content only
-		if width > len(body) {
-			pad := make([]*Term, width-len(body))
+		// width counts runes: concrete UTF-8 continuation bytes do not count;
+		// symbolic bytes are taken as ASCII (the harnesses assume so)
+		nrunes := 0
+		for _, bt := range body {
+			if bt.IsConst() && bt.Val&0xC0 == 0x80 {
+				continue
+			}
+			nrunes++
+		}
+		if width > nrunes {
+			pad := make([]*Term, width-nrunes)
 			for k := range pad {
 				pad[k] = e.ctx.BV(' ', 8)
 			}
@@ -1047,8 +1067,8 @@ func isDigitT(c *Ctx, b *Term) *Term {
 	return c.And(c.Ule(c.BV('0', 8), b), c.Ule(b, c.BV('9', 8)))
 }
 
-// inParseUint is exact on "0x"/"0X" + 1..16 hex digits (and on 17 or more hex
-// digits without a leading zero: range error), on decimal numbers of
+// inParseUint is exact on "0x"/"0X" + hex digits of any length (range error
+// iff a digit above the low 16 is not zero), on decimal numbers of
 // up to 19 digits without a leading zero (and "0"), on the empty string and on
 // strings containing a byte that cannot occur in any Go integer literal;
 // everything else (octal, binary, underscores, overflow) is over-approximated
@@ -1065,28 +1085,29 @@ func inParseUint(e *Exec, fn *ssa.Function, a []Value) Value {
 	if n == 0 {
 		return TupleV{c.Int(0), mkErr()}
 	}
-	// hex
-	if n >= 3 && n <= 18 {
+	// hex of any length: digits above the low 16 must all be zero
+	if n >= 3 {
 		cond := c.And(c.Eq(bs[0], c.BV('0', 8)), c.Or(c.Eq(bs[1], c.BV('x', 8)), c.Eq(bs[1], c.BV('X', 8))))
 		for _, b := range bs[2:] {
 			cond = c.And(cond, isHexT(c, b))
 		}
 		if e.branch(cond) {
+			digits := bs[2:]
+			if m := len(digits); m > 16 {
+				over := c.False
+				for _, b := range digits[:m-16] {
+					over = c.Or(over, c.Ne(b, c.BV('0', 8)))
+				}
+				if e.branch(over) {
+					return TupleV{c.BV(^uint64(0), 64), mkErr()}
+				}
+				digits = digits[m-16:]
+			}
 			v := c.Int(0)
-			for _, b := range bs[2:] {
+			for _, b := range digits {
 				v = c.BOr(c.Bin(OpShl, v, c.Int(4)), c.Zext(hexValT(c, b), 64))
 			}
 			return TupleV{v, (*IfaceV)(nil)}
-		}
-	}
-	// hex with more than 16 significant digits: certain range error
-	if n >= 19 {
-		cond := c.And(c.Eq(bs[0], c.BV('0', 8)), c.Or(c.Eq(bs[1], c.BV('x', 8)), c.Eq(bs[1], c.BV('X', 8))), c.Ne(bs[2], c.BV('0', 8)))
-		for _, b := range bs[2:] {
-			cond = c.And(cond, isHexT(c, b))
-		}
-		if e.branch(cond) {
-			return TupleV{c.BV(^uint64(0), 64), mkErr()}
 		}
 	}
 	// decimal
@@ -1252,4 +1273,40 @@ func inSplitN(e *Exec, fn *ssa.Function, a []Value) Value {
 		sl.Arr.Elems[i] = e.constString(p)
 	}
 	return sl
+}
+
+// ------------------------------------------------------------ strings.Builder
+// The accumulated bytes are kept per builder (keyed by its address); the
+// builder's own fields (copy check, unsafe string view) are not interpreted.
+
+func inBuilderWrite(e *Exec, fn *ssa.Function, a []Value) Value {
+	k := a[0].(*Pointer).Slot
+	var bs []*Term
+	switch x := a[1].(type) {
+	case *StringV:
+		bs = e.strBytes(x)
+	case *SliceV:
+		bs = e.sliceBytes(x)
+	}
+	e.builders[k] = append(e.builders[k], bs...)
+	return TupleV{e.ctx.Int(int64(len(bs))), (*IfaceV)(nil)}
+}
+
+func inBuilderWriteByte(e *Exec, fn *ssa.Function, a []Value) Value {
+	k := a[0].(*Pointer).Slot
+	e.builders[k] = append(e.builders[k], a[1].(*Term))
+	return (*IfaceV)(nil)
+}
+
+func inBuilderWriteRune(e *Exec, fn *ssa.Function, a []Value) Value {
+	k := a[0].(*Pointer).Slot
+	r := a[1].(*Term)
+	if !r.IsConst() {
+		panic(unsupported{"strings.Builder.WriteRune with a symbolic rune"})
+	}
+	enc := string(rune(r.SVal()))
+	for i := 0; i < len(enc); i++ {
+		e.builders[k] = append(e.builders[k], e.ctx.BV(uint64(enc[i]), 8))
+	}
+	return TupleV{e.ctx.Int(int64(len(enc))), (*IfaceV)(nil)}
 }
